@@ -79,6 +79,26 @@ def gen_test(recipe, cex, oid):
             args = ", ".join("&" + S(a) for a in recipe["call_args"])
             body += f"let got: BlsScalar = key.compute_quotient_i(0, {args});\n"
             body += f"let want = sc({limbs(want)}); let predicted = sc({limbs(code)});\n"
+    elif kind == "batch_inversion":
+        # concrete vector from the failing path: entries the path decided zero are 0, the others take the counterexample's
+        # value (or a fixed non-zero default); the expectation is computed natively: 1/x for x != 0, 0 for 0
+        import re as _re
+        k = recipe["k"]
+        zero = {}
+        for c, t in cex.get("path", []):
+            m = _re.fullmatch(r"eq\(v(\d+), int:0\)", c)
+            if m:
+                zero[int(m.group(1))] = t
+        vals = []
+        for i in range(k):
+            v = 0 if zero.get(i) else (env.get(f"v{i}", 0) or (7 + i))
+            vals.append(v)
+        body += "let input: Vec<BlsScalar> = vec![" + ", ".join(f"sc({limbs(v)})" for v in vals) + "];\n"
+        body += "let mut got = input.clone();\ncrate::util::batch_inversion(&mut got);\n"
+        body += "let want: Vec<BlsScalar> = input.iter().map(|x| if *x == BlsScalar::zero() { *x } else { x.invert().unwrap() }).collect();\n"
+        body += 'assert!(got == want, "REPLAY-VIOLATION-REPRODUCED: batch_inversion does not invert every non-zero entry / keep zeros on {:?}", input);\n'
+        name = re.sub(r"\W", "_", oid)
+        return f"#[test]\nfn replay_{name}() {{\n{body}}}\n"
     else:
         return None
     body += 'assert!(got == predicted, "REPLAY-INCONCLUSIVE: the real code returns something else than the checker predicted");\n'
